@@ -58,3 +58,13 @@ pub open spec fn only_failure_record(a: World, b: World, id: EventId) -> bool {
     && (b.processed == a.processed
         || (b.processed.contains_key(id) && b.processed == a.processed.insert(id, b.processed[id]) && b.processed[id].state == ProcessedMessageState::Failed))
 }
+
+// C04: what makes an application rumor acceptable
+pub open spec fn app_rumor_id_valid(a: ApplicationMessage) -> bool {
+    let ru = rumor_of_json(a.bytes());
+    ru.id is None || ru.id->Some_0 == rumor_hash(ru)
+}
+pub open spec fn app_author_ok(a: ApplicationMessage, c: Credential) -> bool {
+    cred_is_basic(c) && cred_identity(c).len() == 32 && pk_bytes_valid(cred_identity(c))
+    && rumor_of_json(a.bytes()).pubkey == pk_from_bytes(cred_identity(c))
+}
